@@ -2,7 +2,7 @@
    Property theorems only (each closed by [exact] of a lemma, followed by Print Assumptions).
    Model: M_Codec (profile/proto.go + profile/encode.go + serialize/ParseUncompressed/Copy);
    specification: S_Codec (validity contract, NumUnit contract, the normalisation proto3 forces). *)
-From PV Require Import M_Codec S_Codec L_Codec_Wire L_Codec_Msg L_Codec_Tab L_Codec_Regroup L_Codec_Main L_Codec_Norm.
+From PV Require Import M_Codec S_Codec L_Codec_Wire L_Codec_Msg L_Codec_Tab L_Codec_Regroup L_Codec_Main L_Codec_Norm R_C01 L_C01_Driver.
 Open Scope string_scope.
 Open Scope list_scope.
 Open Scope Z_scope.
@@ -104,6 +104,20 @@ Theorem parse_is_fixpoint : forall p r',
   parse_uncompressed (enc_profile r') = Ok (normalize p) /\ serialize (normalize p) = Ok (enc_profile r').
 Proof. exact reparse_fixpoint. Qed.
 Print Assumptions parse_is_fixpoint.
+
+(* ---- the driver path (pprof -proto re-read): the only step between fetch and write that touches what
+   a reader sees is unsourceMappings; it preserves every frame shown unless the profile is in F34 ---- *)
+Theorem driver_proto_view_preserved_outside_F34 : forall abs p,
+  in_F34 abs p = false -> frame_view_f (unsourced_file abs) p = frame_view p.
+Proof. exact frame_view_unsourced_lemma. Qed.
+Print Assumptions driver_proto_view_preserved_outside_F34.
+
+(* the unrestricted statement is false of the unchanged code: known finding F34 *)
+Theorem driver_proto_view_refuted_F34 :
+  exists abs p, valid_b p = true /\ frame_view_f (unsourced_file abs) p <> frame_view p.
+Proof. exact frame_view_unsourced_refuted_lemma. Qed.
+Print Assumptions driver_proto_view_refuted_F34.
+
 
 (* ---- non-vacuity: a profile with a 3-element (packed) and a 2-element value list, a sparse id
    2^63+5, string labels incl. an empty value, numeric labels with mixed unit padding ---- *)
